@@ -1,0 +1,246 @@
+//go:build verif
+
+// Contracts for the deductive verifier in /verif (govc). This file contains comments
+// only; it is compiled only with the build tag "verif" and then adds nothing but the
+// package clause.
+
+package join
+
+// ---------------------------------------------------------------- C10(a): interrupt interval
+
+//@ func calcInterruptInterval
+//@   ensures [* C09 C10] non-negative: (result1 == nil ==> result0 > 0) && (result1 != nil ==> result0 == 0)
+//@   ensures [C10] interval-bound: result1 == nil ==> (timeout > 0 && result0 >= 10000000 && 1 <= 100 / inaccuracy && 100 / inaccuracy <= 100
+//@            && result0 * (100 / inaccuracy) <= timeout)
+//@   ensures [C10] interval-exact: (timeout > 0 && result1 == nil) ==> result0 == timeout / (100 / inaccuracy)
+//@   ensures [C10] errors-only-when: result1 != nil ==> (inaccuracy == 0 || inaccuracy > 100 || timeout <= 0 || timeout / (100 / inaccuracy) < 10000000)
+//@   ensures [C10] error-kinds: result1 == nil || result1 == ErrTimeoutInaccuracyZero || result1 == ErrTimeoutInaccuracyTooBig || result1 == ErrTimeoutTooSmall
+
+//@ func calcInterruptIntervalNonPositiveAllowed
+//@   ensures [* C09 C10] disabled: timeout <= 0 ==> result0 == 0 && result1 == nil
+//@   ensures [* C09 C10] non-negative: result0 >= 0 && (result1 != nil ==> result0 == 0)
+//@   ensures [* C09 C10] positive-when-enabled: (timeout > 0 && result1 == nil) ==> result0 > 0
+//@   ensures [C10] interval-bound: (timeout > 0 && result1 == nil) ==> (1 <= 100 / inaccuracy && 100 / inaccuracy <= 100
+//@            && result0 * (100 / inaccuracy) <= timeout)
+//@   ensures [C10] interval-exact: (timeout > 0 && result1 == nil) ==> result0 == timeout / (100 / inaccuracy)
+
+// ---------------------------------------------------------------- the discipline
+//
+// Ghost state (changed only by the channel / clock events below):
+//   gIn[0..gInN)  elements received from the input, in order
+//   gOutN         elements delivered (sum of the lengths of the slices sent)
+//   gDelivPos     position in gIn just after the last delivered element
+//   gClosed       the input was observed closed
+//   gStop         a stop case (Stop() or context cancellation) was taken
+//   gOutClosed    the output channel was closed
+//   gOwned        backing arrays handed to the consumer for good (copy mode)
+//   gLent         backing array lent to the consumer until released (no-copy mode), 0 = none
+//   gLastDeliv    clock value at the last delivery (or at creation)
+
+//@ ghost var gIn map[int]T
+//@ ghost var gInN int
+//@ ghost var gOutN int
+//@ ghost var gDelivPos int
+//@ ghost var gClosed bool
+//@ ghost var gStop bool
+//@ ghost var gOutClosed bool
+//@ ghost var gOwned set
+//@ ghost var gLent ref
+//@ ghost var gLastDeliv time
+
+//@ event recv dsc.opts.Input (item, opened)
+//@   effect gIn := ite(opened, store(gIn, gInN, item), gIn)
+//@   effect gInN := ite(opened, gInN + 1, gInN)
+//@   effect gClosed := gClosed || !opened
+
+//@ event recv ticker.C ()
+
+//@ event recv dsc.breaker.IsBreaked() ()
+//@   effect gStop := true
+
+//@ event recv dsc.opts.Ctx.Done() ()
+//@   effect gStop := true
+
+// What C03 / C08 / C09 / C16 say about a slice at the moment it is delivered.
+//@ event send dsc.output (s)
+//@   requires [C03] never-empty: len(s) >= 1
+//@   requires [C03] at-most-joinsize: len(s) <= dsc.opts.JoinSize
+//@   requires [C03] no-gap-unless-stopped: !gStop ==> gOutN + len(s) == gInN
+//@   requires [C03 C16] in-order-subsequence-of-the-input: gInN - len(s) >= gDelivPos && (forall j :: 0 <= j && j < len(s) ==> s[j] == gIn[gInN - len(s) + j])
+//@   requires [C09] cut-short-only-by-timeout-or-end: dsc.opts.Timeout <= 0 ==> (len(s) == dsc.opts.JoinSize || gClosed || gStop)
+//@   requires [C09] short-slice-not-before-timeout: (len(s) < dsc.opts.JoinSize && !gClosed && !gStop) ==> gClock - gLastDeliv >= dsc.opts.Timeout
+//@   requires [C08] copy-shares-no-memory: dsc.opts.Released == nil ==> (!in(gOwned, s.arr) && s.arr != dsc.join.arr)
+//@   requires [C08] nothing-on-loan: gLent == 0
+//@   requires [C16] nothing-after-close: !gOutClosed
+//@   effect gOutN := gOutN + len(s)
+//@   effect gDelivPos := gInN
+//@   effect gLastDeliv := gClock
+//@   effect gLent := ite(dsc.opts.Released != nil, s.arr, 0)
+//@   effect gOwned := ite(dsc.opts.Released != nil, gOwned, store(gOwned, s.arr, true))
+
+//@ event recv dsc.opts.Released ()
+//@   effect gLent := 0
+
+//@ event close dsc.output
+//@   requires [C03] closed-only-after-everything-was-delivered-or-stop: gStop || (gClosed && gOutN == gInN)
+//@   effect gOutClosed := true
+
+// Every write into a backing array (append in place, element assignment, copy).
+//@ event heapwrite (r)
+//@   requires [C08] never-writes-a-delivered-array: !in(gOwned, r) && r != gLent
+
+//@ event call time.NewTicker (d)
+//@   requires [C10] ticker-period-is-interrupt-interval: d == dsc.interruptInterval
+
+//@ event call breaker.(*Breaker).Complete (b)
+//@   requires [C16] output-closed-when-stop-returns: gOutClosed
+
+//@ pred WFJ(dsc)
+//@   [*] dsc != nil && dsc.opts.JoinSize >= 1 && dsc.opts.JoinSize < two63
+//@   [*] cap(dsc.join) == dsc.opts.JoinSize && len(dsc.join) <= dsc.opts.JoinSize && dsc.join.arr != 0 && allocated(dsc.join.arr)
+//@   [*] dsc.interruptInterval >= 0
+//@   [*] dsc.unreleased ==> gStop
+
+// The buffer holds the most recently received elements (until a release is abandoned).
+//@ pred SEQ(dsc)
+//@   [C03 C16] dsc.unreleased || (gDelivPos + len(dsc.join) <= gInN && gOutN >= 0
+//@            && (forall j :: 0 <= j && j < len(dsc.join) ==> dsc.join[j] == gIn[gInN - len(dsc.join) + j]))
+//@   [C03] gStop || gOutN + len(dsc.join) == gInN
+
+//@ pred OWN(dsc)
+//@   [C08] dsc.unreleased ==> (gLent == dsc.join.arr && gStop)
+//@   [C08] !dsc.unreleased ==> (!in(gOwned, dsc.join.arr) && gLent == 0)
+//@   [C08] forall r :: in(gOwned, r) ==> allocated(r)
+
+//@ pred TIME(dsc)
+//@   [C09] gLastDeliv <= dsc.passAt && dsc.passAt <= gClock
+
+//@ func (*Discipline).resetPassAt
+//@   requires [*] dsc != nil
+//@   requires [C10] timer-restarts-only-with-empty-buffer-or-after-stop: len(dsc.join) == 0 || gStop
+//@   modifies dsc.passAt, gClock
+//@   ensures [* C09 C10] dsc.passAt == gClock && gClock >= old(gClock)
+
+//@ func (*Discipline).isTimeouted
+//@   requires [*] dsc != nil
+//@   modifies gClock
+//@   ensures [* C09 C10] gClock >= old(gClock) && (result <==> gClock - dsc.passAt >= dsc.opts.Timeout)
+
+//@ func (*Discipline).resetJoin
+//@   requires [*] WFJ(dsc)
+//@   modifies dsc.join
+//@   ensures [* C03 C08 C10 C16] dsc.unreleased ==> dsc.join == old(dsc.join)
+//@   ensures [* C03 C08 C10 C16] !dsc.unreleased ==> (len(dsc.join) == 0 && dsc.join.arr == old(dsc.join.arr) && cap(dsc.join) == old(cap(dsc.join)) && dsc.join.off == old(dsc.join.off))
+
+//@ func (*Discipline).prepareItem
+//@   requires [*] dsc != nil
+//@   ensures [* C03 C08 C16] dsc.opts.Released != nil ==> result == item
+//@   ensures [* C03 C16] len(result) == len(item) && (forall j :: 0 <= j && j < len(item) ==> result[j] == item[j])
+//@   ensures [C08] (dsc.opts.Released == nil && len(item) > 0) ==> fresh(result.arr)
+
+//@ func (*Discipline).send
+//@   requires [*] WFJ(dsc)
+//@   requires [* C03 C08 C16] !dsc.unreleased
+//@   requires [C03 C08] len(item) >= 1
+//@   requires [C03] len(item) <= dsc.opts.JoinSize && (!gStop ==> gOutN + len(item) == gInN)
+//@   requires [C03 C16] gInN - len(item) >= gDelivPos && (forall j :: 0 <= j && j < len(item) ==> item[j] == gIn[gInN - len(item) + j])
+//@   requires [C09] dsc.opts.Timeout <= 0 ==> (len(item) == dsc.opts.JoinSize || gClosed || gStop)
+//@   requires [C09] (len(item) < dsc.opts.JoinSize && !gClosed && !gStop) ==> gClock - gLastDeliv >= dsc.opts.Timeout
+//@   requires [C08] OWN(dsc)
+//@   requires [C08] item.arr == dsc.join.arr
+//@   requires [C16] !gOutClosed
+//@   modifies dsc.unreleased, gOutN, gDelivPos, gLastDeliv, gLent, gOwned, gStop
+//@   ensures [C03] gStop || gOutN == old(gOutN) + len(item)
+//@   ensures [C03 C16] gOutN >= old(gOutN) && gDelivPos <= gInN && gDelivPos >= old(gDelivPos)
+//@   ensures [* C03 C08 C09 C16] old(gStop) ==> gStop
+//@   ensures [C09] gLastDeliv == gClock || gLastDeliv == old(gLastDeliv)
+//@   ensures [C08] OWN(dsc)
+//@   ensures [* C10] dsc.unreleased ==> gStop
+
+//@ func (*Discipline).pass
+//@   requires [*] WFJ(dsc)
+//@   requires [C03 C16] SEQ(dsc)
+//@   requires [C08] OWN(dsc)
+//@   requires [C09] TIME(dsc)
+//@   requires [C09] dsc.opts.Timeout <= 0 ==> (len(dsc.join) == 0 || len(dsc.join) == dsc.opts.JoinSize || gClosed || gStop || dsc.unreleased)
+//@   requires [C09] len(dsc.join) == 0 || len(dsc.join) == dsc.opts.JoinSize || gClosed || gStop || dsc.unreleased || gClock - dsc.passAt >= dsc.opts.Timeout
+//@   requires [C16] !gOutClosed
+//@   modifies dsc.join, dsc.passAt, dsc.unreleased, gClock, gOutN, gDelivPos, gLastDeliv, gLent, gOwned, gStop
+//@   ensures [*] WFJ(dsc)
+//@   ensures [*] dsc.join.arr == old(dsc.join.arr) && cap(dsc.join) == old(cap(dsc.join)) && dsc.join.off == old(dsc.join.off)
+//@   ensures [* C03 C10 C16] len(dsc.join) == 0 || dsc.unreleased
+//@   ensures [* C03 C08 C09 C16] old(gStop) ==> gStop
+//@   ensures [* C08 C10] dsc.unreleased ==> gStop
+//@   ensures [* C08 C16] old(dsc.unreleased) ==> dsc.unreleased
+//@   ensures [C03 C16] SEQ(dsc)
+//@   ensures [C08] OWN(dsc)
+//@   ensures [C09] TIME(dsc)
+
+//@ func (*Discipline).process
+//@   requires [*] WFJ(dsc)
+//@   requires [*] len(dsc.join) < dsc.opts.JoinSize || dsc.unreleased
+//@   requires [C03 C16] dsc.unreleased || (gDelivPos + len(dsc.join) + 1 <= gInN && gOutN >= 0 && item == gIn[gInN - 1]
+//@            && (forall j :: 0 <= j && j < len(dsc.join) ==> dsc.join[j] == gIn[gInN - 1 - len(dsc.join) + j]))
+//@   requires [C03] gStop || gOutN + len(dsc.join) + 1 == gInN
+//@   requires [C08] OWN(dsc)
+//@   requires [C09] TIME(dsc)
+//@   requires [C16] !gOutClosed
+//@   modifies dsc.join, elems(dsc.join), dsc.passAt, dsc.unreleased, gClock, gOutN, gDelivPos, gLastDeliv, gLent, gOwned, gStop
+//@   ensures [*] WFJ(dsc)
+//@   ensures [*] len(dsc.join) < dsc.opts.JoinSize || dsc.unreleased
+//@   ensures [* C03 C08 C09 C16] old(gStop) ==> gStop
+//@   ensures [C03 C16] SEQ(dsc)
+//@   ensures [C08] OWN(dsc)
+//@   ensures [C09] TIME(dsc)
+
+//@ pred INV(dsc)
+//@   [*] WFJ(dsc)
+//@   [*] len(dsc.join) < dsc.opts.JoinSize || dsc.unreleased
+//@   [C03 C16] SEQ(dsc)
+//@   [C08] OWN(dsc)
+//@   [C09] TIME(dsc)
+//@   [C16] !gOutClosed
+
+//@ func (*Discipline).loop
+//@   requires [*] INV(dsc)
+//@   requires [*] dsc.interruptInterval > 0
+//@   requires [C09] dsc.opts.Timeout > 0
+//@   requires [C03] !gClosed
+//@   modifies dsc.join, elems(dsc.join), dsc.passAt, dsc.unreleased, gClock, gIn, gInN, gClosed, gOutN, gDelivPos, gLastDeliv, gLent, gOwned, gStop
+//@   ensures [C03] gStop || (gClosed && gOutN == gInN)
+//@   ensures [C16] !gOutClosed
+//@   loop 0
+//@     invariant [*] INV(dsc)
+//@     invariant [C03] !gClosed
+
+//@ func (*Discipline).loopUntimeouted
+//@   requires [*] INV(dsc)
+//@   requires [C03] !gClosed
+//@   requires [C09] dsc.opts.Timeout <= 0
+//@   modifies dsc.join, elems(dsc.join), dsc.passAt, dsc.unreleased, gClock, gIn, gInN, gClosed, gOutN, gDelivPos, gLastDeliv, gLent, gOwned, gStop
+//@   ensures [C03] gStop || (gClosed && gOutN == gInN)
+//@   ensures [C16] !gOutClosed
+//@   loop 0
+//@     invariant [*] INV(dsc)
+//@     invariant [C03] !gClosed
+
+//@ func (*Discipline).main
+//@   requires [*] INV(dsc)
+//@   requires [C03] !gClosed
+//@   requires [C09] (dsc.interruptInterval == 0) <==> (dsc.opts.Timeout <= 0)
+//@   modifies dsc.join, elems(dsc.join), dsc.passAt, dsc.unreleased, gClock, gIn, gInN, gClosed, gOutN, gDelivPos, gLastDeliv, gLent, gOwned, gStop, gOutClosed
+
+//@ func Opts.isValid
+//@   ensures [*] (result == nil) <==> (opts.Input != nil && opts.JoinSize != 0)
+
+//@ func Opts.normalize
+//@   ensures [*] result.Input == opts.Input && result.JoinSize == opts.JoinSize && result.Released == opts.Released && result.Timeout == opts.Timeout
+//@   ensures [* C10] result.TimeoutInaccuracy == ite(opts.TimeoutInaccuracy == 0, 25, opts.TimeoutInaccuracy)
+
+// The ghost state of a discipline that does not exist yet is empty. JoinSize is a size
+// the runtime can allocate (otherwise make panics in New).
+//@ func New
+//@   requires [*] ghost-initial-state: gInN == 0 && gOutN == 0 && gDelivPos == 0 && !gClosed && !gStop && !gOutClosed && gLent == 0 && gLastDeliv == gClock && (forall r :: !in(gOwned, r))
+//@   requires [*] allocatable: opts.JoinSize < two63
+//@   modifies gClock
+//@   ensures [*] result1 == nil ==> result0 != nil
